@@ -108,16 +108,29 @@ def rule_paths(ctx):
                   "raw_filter::apply is not applied to the current packet and the configured filter: (%s, %s)" % (T.pp(fargs[0]), T.pp(fargs[1])), ctx.loc(b, ablk))
         # R2: rejected edge
         tgt = at["target"]
-        be = T.branch_edges(b, S, tgt) if tgt is not None else None
         rej = adm = None
-        if be is not None:
-            atom, labels = be
-            if atom[0] == "call" and "raw_filter::apply" in atom[1]:
-                for succ, lab in labels.items():
-                    if lab is False:
-                        rej = succ
-                    elif lab is True:
-                        adm = succ
+        # the first branch after the call that is decided by its result - directly, or through a local that holds the result on the
+        # filtered path and a constant otherwise (`let admitted = match filter { Some(f) => apply(p, f), None => true }; if !admitted`)
+        seen_f, todo = set(), [tgt] if tgt is not None else []
+        while todo and rej is None:
+            x = todo.pop(0)
+            if x in seen_f:
+                continue
+            seen_f.add(x)
+            be = T.branch_edges(b, S, x)
+            if be is not None:
+                atom, labels = be
+                alts = list(atom[1]) if atom[0] == "phi" else [atom]
+                calls_ = [a_ for a_ in alts if a_[0] == "call" and "raw_filter::apply" in a_[1]]
+                consts = [a_[1] for a_ in alts if a_[0] == "const" and isinstance(a_[1], bool)]
+                if len(calls_) == 1 and len(calls_) + len(consts) == len(alts) and len(set(consts)) <= 1:
+                    for succ, lab in labels.items():
+                        if lab is False and (not consts or consts[0] is True):
+                            rej = succ
+                        elif lab is True:
+                            adm = succ
+                    break
+            todo.extend(s_ for s_ in b.succs(x) if s_ not in seen_f)
         if rej is None or adm is None:
             ctx.cannot("R2", inst, "branch on the result of raw_filter::apply not found", ctx.loc(b, ablk))
             continue
